@@ -97,6 +97,9 @@ func (v *VM) Run() (err error) {
 func (v *VM) run() {
 	for atomic.LoadInt64(&v.aborting) == 0 {
 		v.ip++
+		if verifEnabled {
+			verifProbe(v)
+		}
 
 		switch v.curInsts[v.ip] {
 		case parser.OpConstant:
